@@ -38,12 +38,18 @@ def session_job(spec):
     out = []
     for si, s in enumerate(spec["sessions"]):
         nbits, c = s["nbits"], s["nchans"]
-        hdr = _hdr(d, f"{spec['id']}_{si}", c, nbits)
+        # the source header may have ANY depth / channel count: the output's are given to prep_outfile
+        src_nbits = s.get("src_nbits", nbits)
+        hdr = _hdr(d, f"{spec['id']}_{si}", c if src_nbits == nbits else 8, src_nbits)
         path = str(d / f"out_{spec['id']}_{si}.fil")
         ev = []
         top = min(2 ** nbits - 1, 1000) if nbits < 32 else 1000
         try:
-            w = hdr.prep_outfile(path, nbits=nbits)
+            if s.get("updates"):
+                w = hdr.prep_outfile(path, updates={"nchans": c, "source": "requant"}, nbits=nbits)
+            else:
+                w = hdr.prep_outfile(path, nbits=nbits) if src_nbits == nbits else \
+                    hdr.prep_outfile(path, updates={"nchans": c}, nbits=nbits)
             hl = os.path.getsize(path)
             ev.append({"a": "prep", "size": hl})
             for (ns, dt) in s["writes"]:
@@ -168,8 +174,9 @@ def run(v) -> None:
                 for dts in itertools.product(DT, repeat=k):
                     seqs.append([(rng.choice([1, 2, 3]), dt) for dt in dts])
             rng.shuffle(seqs)
-            for s in seqs[: (12 if quick else 200)]:
-                sessions.append({"nbits": nbits, "nchans": c, "writes": s})
+            for j, s in enumerate(seqs[: (12 if quick else 200)]):
+                sessions.append({"nbits": nbits, "nchans": c, "writes": s,
+                                 "src_nbits": nbits if j % 3 == 0 else rng.choice([1, 2, 4, 8, 16, 32]), "updates": j % 2 == 1})
     trips = []
     for fmt in ("tim", "dat", "spec", "fft", "block"):
         for n in ([1, 2, 7, 24, 125] if quick else [1, 2, 3, 7, 24, 64, 125, 1000]):
